@@ -695,6 +695,34 @@ fn gen_c10(rng: &mut Rng, tier: Tier, index: u64) -> Case {
     case
 }
 
+/// Engine B worlds for C10: 2-3 free-running threads plan at the same time, each on its own planner (or all on one, behind
+/// the mutex), small Rader / Bluestein primes and composites; every returned transform is reference-checked. Whatever
+/// planning shares across planners (process-wide memos, statics) is exercised under Miri's preemptive scheduler and its
+/// data-race detector.
+fn gen_c10_miri(rng: &mut Rng, tier: Tier) -> Case {
+    let elem = if rng.chance(0.5) { ElemKind::F32 } else { ElemKind::F64 };
+    let mut case = base_case("C10", elem, rng);
+    let nthreads = 2 + rng.below(2) as usize;
+    let shared = rng.chance(0.25);
+    let pk = *rng.pick(&PKS);
+    for _ in 0..(if shared { 1 } else { nthreads }) {
+        case.planners.push(if rng.chance(0.7) { pk } else { *rng.pick(&PKS) });
+    }
+    let all: &[usize] = if tier.thorough { &[37, 41, 43, 47, 53, 59, 61, 67, 71, 73, 79, 83, 89, 97, 101, 103, 107, 109, 113, 127] } else { &[37, 41, 43, 47, 53, 59, 61, 67, 71, 73] };
+    // a pool of three or four primes per case, so that the threads request the same and neighbouring primes repeatedly
+    let primes: Vec<usize> = (0..3 + rng.below(2)).map(|_| *rng.pick(all)).collect();
+    for t in 0..nthreads {
+        let mut ops = Vec::new();
+        for s in 0..3u16 {
+            let len = if rng.chance(0.85) { *rng.pick(&primes) } else { 2 + rng.below(62) as usize };
+            ops.push(Op::Plan { planner: if shared { 0 } else { t as u16 }, len, dir: pick_dir(rng), via: rng.chance(0.3), slot: s });
+            ops.push(Op::Call { inst: InstRef::Local(s), entry: *rng.pick(&ENTRIES), k: pick_k(rng, 2), input: pick_input(rng), scratch_extra: 0, scratch_fill: Fill::Zero, out_fill: Fill::Zero, place: Place::Right, dft_ref: true });
+        }
+        case.threads.push(ops);
+    }
+    case
+}
+
 fn gen_c06(rng: &mut Rng, tier: Tier) -> Case {
     let elem = pick_elem(rng, 4);
     let mut case = base_case("C06", elem, rng);
@@ -1048,6 +1076,7 @@ pub fn gen_case(prop: &str, tier: Tier, verif_seed: u64, index: u64, engine_miri
                 gen_c03(&mut rng, tier, true, fixed)
             }
             "C12" => gen_c12(&mut rng, tier, true, index, verif_seed),
+            "C10" => gen_c10_miri(&mut rng, tier),
             _ => gen_miri_shared(prop, &mut rng, tier, index, verif_seed),
         }
     } else {
